@@ -18,7 +18,7 @@ from gemdat.rdf import radial_distribution, radial_distribution_between_species 
 from gemdat.transitions import Transitions, _calculate_transition_events  # noqa: E402
 
 PID = 'C11'
-MODULES = ['GProofs.Geometry', 'GProofs.C11', 'GProofs.C11Gen']
+MODULES = ['GProofs.Geometry', 'GProofs.C11', 'GProofs.C11Gen', 'GProofs.C11Names']
 
 
 def gen_case(rng, long_run=False):
@@ -77,7 +77,38 @@ def state_name(c, p, n):
     return p + '->' + n
 
 
+def check_state_names(out: Outcome, labels, case):
+    """correspondence for GModel.RdfNames (theorems C11Names): the dictionary the code files the per-state counts under, on every
+    code that can occur (on a site: previous = next = that site; off-site: any previous / next), equals the model's"""
+    try:
+        from gemdat.rdf import _get_states
+    except ImportError:
+        out.count('state-name-helper-absent')
+        return
+    if any((not lab) or any(ch.isspace() for ch in lab) for lab in labels):
+        return
+    u = list(set(labels))
+    toks = core.drive1(f'rdfnames {len(u)} ' + ' '.join(u)).split()
+    assert toks[0] == 'ok', toks[:3]
+    model = {int(toks[1 + 2 * k]): toks[2 + 2 * k] for k in range((len(toks) - 1) // 2)}
+    try:
+        impl = {int(k): v for k, v in _get_states(labels).items()}
+    except Exception as e:  # noqa: BLE001
+        out.fail('correspondence', 'model-state-names', case, observed=type(e).__name__)
+        return
+    n = len(u)
+    codes = [i * 10**6 + i * 10**3 + i for i in range(n)] + [-10**6 + j * 10**3 + k for j in range(-1, n) for k in range(-1, n)]
+    for c in codes:
+        want, got = model.get(c), impl.get(c)
+        same = (want == got) if not (want or '').startswith('~>') else (got or '').startswith('~>')
+        if not same:
+            out.fail('correspondence', 'model-state-names', {**case, 'unique_labels': u, 'code': c}, expected=want, observed=got)
+            return
+    out.count('state-names-agree')
+
+
 def check_case(out: Outcome, case, tag):
+    check_state_names(out, case['labels'], case)
     lat = np.array(case['lattice'], float)
     species = case['species']
     coords = np.array(case['coords'], float)
